@@ -567,7 +567,7 @@ fn gen_case(rng: &mut Rng, idx: usize) -> String {
                 3 => (*rng.pick(&[1u64, 2, 3, 7, 34, 50]), 0),
                 4 => (*rng.pick(&[999u64, 1000, 1001, 1500, 2000]), 0),
                 5 => (rng.range(1, 5000), 0),
-                6 => (*rng.pick(&[12_500_000u64, 125_000_000, 1_000_000_000, 1_000_000_007, u64::MAX / 2]), 0),
+                6 => (*rng.pick(&[12_500_000u64, 125_000_000, 1_000_000_000, 1_000_000_007, 1u64 << 61]), 0),
                 7 => (m * 1000 + *rng.pick(&[0u64, 1, m * 1000 - 1]), 0),
                 8 => (rng.range(1, 100_000_000), 0),
                 9 => (rng.range(1, 3000), rng.range(1, 3000)),
@@ -638,7 +638,7 @@ fn gen_case(rng: &mut Rng, idx: usize) -> String {
         let dst: i64 = match rng.below(20) {
             0..=6 => rng.below(ntaps[n] as u64) as i64, // unicast to a tap of this network (sometimes the sender's own)
             7 | 8 => ntaps[n] as i64 + rng.below(3) as i64, // not allocated (just beyond the allocator)
-            9 => *rng.pick(&[BCAST - 1, BCAST + 1, 1i64 << 40, 0xFFFF_FFFF, i64::MAX]),
+            9 => *rng.pick(&[BCAST - 1, BCAST + 1, 1i64 << 40, 0xFFFF_FFFF, 1i64 << 61]),
             10..=14 => BCAST,
             _ => -1,
         };
